@@ -507,6 +507,11 @@ func runC16(c *Ctx) {
 		// R8: snapshot ids: the rollback point ExecuteTransaction takes on the root store must not
 		// be replaced by a snapshot a command takes through a prefix view of the same store
 		checkTableAndCounterTogether(c, "C16.R8 snapshot-ids-do-not-collide", "db/diffdb", "Database")
+		// R9: a read through the staged store (e.g. by a concurrent transaction verification) must
+		// not undo what a command wrote: no write to the overlay under a re-acquired lock on the
+		// strength of a lookup made before the lock was given up (the E1 rule C20.R11)
+		checkDecideAndAct(c, "C16", func(fn *ssa.Function) bool { return IsProd(fn) && strings.HasPrefix(FuncKey(fn), "pkg/db/diffdb.") })
+		c.Require("C16.R11 decide-and-act-in-one-critical-section", "pkg/db/diffdb: functions that release and re-take the store's lock", "-", "examined (a finding is reported per write)", true, "")
 		snap := c.Anchor("pkg/db/diffdb.(*Database).Snapshot")
 		rest := c.Anchor("pkg/db/diffdb.(*Database).RestoreSnapshot")
 		if snap != nil && rest != nil {
